@@ -11,7 +11,7 @@ from simkit import harness as H
 from simkit import sched as S
 from simkit import sync
 from simkit import world as W
-from simkit.runner import Result, rng_for
+from simkit.runner import Result, rng_for, stable_hash
 
 ID = "C17"
 ENGINE = "simsched"
@@ -296,7 +296,7 @@ def run_lru(sc) -> Result:
             res.probes["lock_contended"] += 1
         res.info["switch_log"] = list(sched.switch_log)
         res.faults["preemptions"] += sched.preemptions
-        res.digest = str(hash((tuple((h["task"], h["op"]["op"], h["result"], tuple(h["disposed"]), h["inv"], h["ret"]) for h in history), tuple(sched.trace))) & 0xFFFFFFFFFF)
+        res.digest = stable_hash(([(h["task"], h["op"]["op"], h["result"], tuple(h["disposed"]), h["inv"], h["ret"]) for h in history], sched.trace))
         res.trace = hash((repr(sc["tasks"]), sc["maxsize"], tuple(sched.trace)))
         res.nontrivial = sched.preemptions > 0 or len(history) >= 4
         res.steps = sched.steps
